@@ -1,7 +1,7 @@
 """C12 — Python literals are promoted identically by converter, eager mode and builder."""
 import re
 
-MODULES = ["contracts.c12_autocast", "contracts.c01_operators"]
+MODULES = ["contracts.c12_autocast", "contracts.c01_operators", "contracts.c12_anylen"]
 
 
 def INCLUDE(name):
@@ -53,7 +53,12 @@ sys.exit(1 if bad else 0)
 '''
 
 
+PROMOTE_REPLAY = "import sys\nsys.path.insert(0, '/verif')\nfrom replay_lib.c12_native import main\nmain()\n"
+
+
 def replay(ob):
+    if "any_length" in ob["name"] or "cast_inputs.loop" in ob["name"]:
+        return PROMOTE_REPLAY
     if "constant_cache.mixed" in ob["name"]:
         return MIXED_REPLAY
     if "constant_cache" in ob["name"]:
